@@ -141,6 +141,18 @@ class CodemodExecutionContext:
 
         from codemodder.dependency_management import DependencyManager
 
+        # A dependency that any of the project's manifests already declares needs no
+        # update; otherwise it would be added to the next manifest on every run
+        dependencies = {
+            dep
+            for dep in dependencies
+            if not any(
+                store.has_requirement(dep.requirement) is True for store in store_list
+            )
+        }
+        if not dependencies:
+            return record
+
         for package_store in store_list:
             dm = DependencyManager(package_store, self.directory)
             if (changeset := dm.write(list(dependencies), self.dry_run)) is not None:
